@@ -234,8 +234,11 @@ CHECKS["C07"] = dict(
           "refuted parameter-level idempotence. Each history is replayed by the model and kernel, scale and outputs "
           "are compared in Coq with the float64 layer on every run."),
     note="Model: Model/KFL.v. tf.pow(x, 1/dims) is an oracle in the theorems (any upper approximation of the root) "
-         "and a truncated Newton iteration when executed. An optimizer changing scale after the kernel was constrained "
-         "with no further constraint application is outside the statement.",
+         "and a truncated Newton iteration when executed. Histories are lists of constraint steps and arbitrary "
+         "re-assignments of kernel / scale / bias: monotone whenever a kernel constraint follows the last kernel or "
+         "scale update, bounded whenever a kernel constraint follows the last kernel update and a scale constraint "
+         "the last scale update (C07_monotone_history, C07_bounded_history); the stale interleaving (kernel "
+         "constraint, scale sign change, scale constraint only) is refuted for monotonicity: open known finding D75.",
     technique="Coq proof over Q model with a root oracle + in-Coq correspondence with the layer's constraints",
     design="7/C07")
 CHECKS["C11"] = dict(
